@@ -31,14 +31,35 @@ def add_market(self, market):
 LAUNCHERS = ("_start", "_start_with_param_data", "_start_with_global_data")
 
 
+_FRESH_HELPERS: set = set()      # module-level helpers of backtest.py whose every return is a deep copy of a parameter
+
+
+def _fresh_helpers(mod) -> set:
+    out = set()
+    for st in mod.tree.body:
+        if isinstance(st, ast.FunctionDef):
+            params = {a.arg for a in st.args.args}
+            rets = [r for r in ast.walk(st) if isinstance(r, ast.Return)]
+            if rets and all(r.value is not None and isinstance(r.value, ast.Call) and ast.unparse(r.value.func) in ("copy.deepcopy", "deepcopy")
+                            and len(r.value.args) == 1 and isinstance(r.value.args[0], ast.Name) and r.value.args[0].id in params
+                            for r in rets):
+                out.add(st.name)
+    return out
+
+
 def _is_fresh_copy(e: ast.expr) -> bool:
-    return isinstance(e, ast.Call) and ast.unparse(e.func) in ("copy.deepcopy", "deepcopy")
+    if not isinstance(e, ast.Call):
+        return False
+    fn = ast.unparse(e.func)
+    return fn in ("copy.deepcopy", "deepcopy") or fn in _FRESH_HELPERS
 
 
 def share_rule(model, res):
     mod = model.modules["demeter.core.backtest"]
     run = model.func("BacktestManager.run")
     n = 0
+    _FRESH_HELPERS.clear()
+    _FRESH_HELPERS.update(_fresh_helpers(mod))
     # local single assignments in run (for `cfg = copy.deepcopy(self.config)` inside the loop)
     def local_def(name, before):
         best = None
